@@ -157,6 +157,8 @@ func (in *Interp) engineMethod(recv iface, m *types.Func) value {
 		return &nativeFn{name: "hash." + m.Name(), f: func(in *Interp, caller *frame, args []value) value {
 			return in.hashMethod(o, m.Name(), args[1:])
 		}}
+	case *reflTyp:
+		return in.reflTypeMethod(o, m)
 	}
 	return nil
 }
